@@ -175,6 +175,7 @@ public:
 
   void setBreakPoints(const std::vector<size_t>& breakPoints) override
   {
+    checkBreakPoints_(breakPoints, nbSites_);
     breakPoints_ = breakPoints;
     dVariable_ = "";
     d2Variable_ = "";
